@@ -25,6 +25,10 @@ theorem C15_gen_facts :
       [("deleteTxn", ["range block.Transactions"]), ("deleteTxn", ["range unspents", "len(value) == 0"])] ∧
     ElaVerif.Gen.C15.txCacheCallsFetch = ["GetTxn"] ∧
     ElaVerif.Gen.C15.blockCacheInvalidations = 0 ∧
+    -- the path that disconnects blocks without cleaning the UTXO cache has no caller outside its own
+    -- exported wrapper, and that wrapper has no caller at all
+    ElaVerif.Gen.C15.reorganizeChain2Callers = ["blockchain/blockchain.go:ReorganizeChain2"] ∧
+    ElaVerif.Gen.C15.exportedReorganizeChain2Callers = [] ∧
     -- eviction is decided by the length of the FIFO of hashes (not of the map): what `C15_block_race` and
     -- `C15_send_shape` rely on
     ElaVerif.Gen.C15.blockCacheEvictCond = "len(c.blockHashesCache) >= BlocksCacheSize" ∧
